@@ -109,6 +109,14 @@ def hNwu : Handler
     ",".intercalate ((nwuParse ls).map fun m => toString m.id)
   | _ => "bad-op"
 
+def hNwuSym : Handler
+  | [its] =>
+    let ls := (lists its).map fun f => (items f).filterMap fun
+      | [a, b, c] => some (⟨parseInt a, parseInt b, parseNat c⟩ : MR)
+      | _ => none
+    ",".intercalate ((nwuParseSym ls).map fun m => toString m.id)
+  | _ => "bad-op"
+
 def hPre : Handler
   | [variant, cs, ms, q] =>
     let lowerC := if variant == "keep" then lowerKeep RTV.Gen.lowerPairs
@@ -207,6 +215,7 @@ def dispatchSpan (op : String) (args : List String) : Option String :=
   | "sp.mat" => some (hMat args)
   | "sp.addto" => some (hAddTo args)
   | "sp.nwu" => some (hNwu args)
+  | "sp.nwusym" => some (hNwuSym args)
   | "sp.pre" => some (hPre args)
   | "sp.ok" => some (hOk args)
   | "sp.disj" => some (hDisj args)
